@@ -208,3 +208,31 @@ func (w *World) endRuns(next *G) {
 	}
 	w.recs = w.recs[:k]
 }
+
+// wakePending removes the entries conflicting with the pending operation of g (whose run just ended).
+func wakePending(sleep []sleepEntry, g *G) []sleepEntry {
+	p := g.pend
+	if p == nil {
+		return sleep
+	}
+	var objs []*Obj
+	for i := range p.cases {
+		if c := p.cases[i].c; c != nil {
+			objs = append(objs, &c.Obj)
+		}
+	}
+	objs = append(objs, p.objs...)
+	keep := sleep[:0:0]
+	changed := false
+	for i := range sleep {
+		if conflicts(sleep[i].fp, objs, modeWrite) {
+			changed = true
+			continue
+		}
+		keep = append(keep, sleep[i])
+	}
+	if !changed {
+		return sleep
+	}
+	return keep
+}
